@@ -2,6 +2,7 @@
 """usage: tools/try_patches.py [-j N] [--props C01,C02] patch [patch ...]
 Apply each patch to its own scratch worktree of /repo's HEAD (outside /repo and /verif), run every registered check
 (or the listed ones) against it with --repo, print the checks that fire, remove the worktree.  /repo is not touched."""
+import time
 import json, os, shutil, subprocess, sys, tempfile
 from concurrent.futures import ThreadPoolExecutor
 
@@ -13,7 +14,15 @@ def run_one(patch, props):
     wt = os.path.join(tmp, "repo")
     out = []
     try:
-        subprocess.run(["git", "-C", "/repo", "worktree", "add", "--detach", wt, "HEAD"], check=True, capture_output=True)
+        for attempt in range(6):        # concurrent checks add / remove worktrees of the same repository: retry on lock contention
+            r0 = subprocess.run(["git", "-C", "/repo", "worktree", "add", "--detach", wt, "HEAD"], capture_output=True, text=True)
+            if r0.returncode == 0:
+                break
+            subprocess.run(["git", "-C", "/repo", "worktree", "remove", "--force", wt], capture_output=True)
+            shutil.rmtree(wt, ignore_errors=True)
+            time.sleep(1.5 * (attempt + 1))
+        else:
+            return patch, ["ERROR: could not create a scratch worktree: " + r0.stderr.strip()[:200]]
         r = subprocess.run(["git", "-C", wt, "apply", os.path.abspath(patch)], capture_output=True, text=True)
         if r.returncode != 0:
             return patch, ["PATCH-DOES-NOT-APPLY: " + r.stderr.strip()[:200]]
